@@ -1203,6 +1203,18 @@ const (
 	cannotFit
 )
 
+// truncatedLineWidth returns the width of the current candidate line ending with candidateRun
+// when the truncator is appended to it: nothing of the text is trailing anymore. Its end letter
+// spacing separates it from the truncator, and so does a final white space, unless it is going to
+// be trimmed (its advance set to zero) by postProcessLine.
+func (l *LineWrapper) truncatedLineWidth(candidateRun Output) int {
+	width := candidateRun.Advance + l.scratch.candidateAdvance()
+	if !l.config.DisableTrailingWhitespaceTrim {
+		width -= candidateRun.trailingSpaceAdvance(l.config.Direction)
+	}
+	return width.Ceil()
+}
+
 // processBreakOption evaluates whether the provided breakOption can fit onto the current line wrapping line.
 func (l *LineWrapper) processBreakOption(option breakOption, config lineConfig) (processBreakResult, Output) {
 	// Discard break options on previous lines.
@@ -1229,7 +1241,7 @@ func (l *LineWrapper) processBreakOption(option breakOption, config lineConfig) 
 		} else {
 			return newLineBeforeBreak, candidateRun
 		}
-	} else if config.truncating && candidateLineWidth > config.truncatedMaxWidth {
+	} else if config.truncating && l.truncatedLineWidth(candidateRun) > config.truncatedMaxWidth {
 		// The run would not fit if truncated.
 		finalRunRune := candidateRun.Runes.Count + candidateRun.Runes.Offset
 		if finalRunRune == l.breaker.totalRunes && !l.config.TextContinues {
